@@ -20,6 +20,10 @@ copyreg.pickle(HeaderTuple, lambda t: (HeaderTuple, tuple(t)))
 copyreg.pickle(NeverIndexedHeaderTuple, lambda t: (NeverIndexedHeaderTuple, tuple(t)))
 
 
+# (a connection that keeps a memoryview of some buffer can be copied too: the copy views a private copy of the bytes)
+copyreg.pickle(memoryview, lambda m: (memoryview, (bytes(m),)))
+
+
 def _rebuild_size_limit_dict(cls, limit, items):
     d = cls(size_limit=limit)
     for k, v in items:
